@@ -432,12 +432,12 @@ Proof.
   intros d. unfold curve_tail. destruct (N.ltb_spec (hdN d) 0); [lia | reflexivity].
 Qed.
 
-(* below the last entry, an exact vector and its source agree up to the rounding of curve_tail *)
+(* up to the last entry, an exact vector and its source agree up to the rounding of curve_tail *)
 Lemma exact_tail_ub : forall f d r, mono f -> wf_dmin d -> exact_dmin_of f d ->
-  0 < r -> r <= lastN d -> (r < lastN d \/ ~ plateau_end d) ->
+  0 < r -> r <= lastN d ->
   f r <= curve_tail d r.
 Proof.
-  intros f d r Hm Hwf Hex Hr0 HrL Hcase. pose proof Hwf as [Hne [Hnd Hlast]].
+  intros f d r Hm Hwf Hex Hr0 HrL. pose proof Hwf as [Hne [Hnd Hlast]].
   pose proof (nondec_sorted d Hnd) as Hs.
   rewrite curve_tail_cnt by assumption. destruct (N.eqb_spec r 0); [lia|].
   destruct (cnt_sorted_spec d r Hs) as [c [Hc [Hcl [H1 H2]]]]. rewrite Hc.
@@ -473,16 +473,15 @@ Lemma exact_dmin_dominates_gen : forall f d, (forall a b, a <= b -> f a <= f b) 
 Proof.
   intros f d Hm H0 Hsub Hwf Hex delta. pose proof Hwf as [Hne [Hnd Hlast]].
   destruct (N.eq_dec delta 0) as [->|Hd]; [rewrite H0, curve_na_0; lia|].
-  rewrite curve_na_eq by exact Hd. set (L := lastN d) in *.
-  pose proof (N.div_mod delta L ltac:(lia)) as Hdm. pose proof (N.mod_lt delta L ltac:(lia)) as Hlt.
-  set (q := delta / L) in *. set (r := delta mod L) in *.
-  rewrite Hdm at 1.
-  pose proof (Hsub (L * q) r) as H1. pose proof (subadd_mul f L q H0 Hsub) as H2.
+  rewrite curve_na_eq by assumption. set (L := lastN d) in *.
+  pose proof (N.div_mod (delta - 1) L ltac:(lia)) as Hdm. pose proof (N.mod_lt (delta - 1) L ltac:(lia)) as Hlt.
+  set (q := (delta - 1) / L) in *. set (r := (delta - 1) mod L) in *.
+  replace delta with (L * q + (r + 1)) at 1 by lia.
+  pose proof (Hsub (L * q) (r + 1)) as H1. pose proof (subadd_mul f L q H0 Hsub) as H2.
   pose proof (exact_last_ub f d Hwf Hex) as H3. fold L in H3.
   assert (H4 : q * f L <= q * lenN d) by (apply N.mul_le_mono_l; exact H3).
-  assert (H5 : f r <= curve_tail d r).
-  { destruct (N.eq_dec r 0) as [->|Hr]; [rewrite H0, curve_tail_0; lia|].
-    apply exact_tail_ub; try assumption; [lia | fold L; lia | left; fold L; exact Hlt]. }
+  assert (H5 : f (r + 1) <= curve_tail d (r + 1)).
+  { apply exact_tail_ub; try assumption; [lia | fold L; lia]. }
   lia.
 Qed.
 
@@ -495,7 +494,7 @@ Proof. intros f d Hm H0 Hsub _. apply exact_dmin_dominates_gen; assumption. Qed.
 Print Assumptions exact_dmin_dominates.
 
 Lemma exact_tail_lb : forall f d r, mono f -> (forall x, 0 < x -> 1 <= f x) -> wf_dmin d -> exact_dmin_of f d ->
-  0 < r -> r < lastN d -> curve_tail d r <= f r.
+  0 < r -> r <= lastN d -> curve_tail d r <= f r.
 Proof.
   intros f d r Hm Hpos Hwf Hex Hr0 HrL. pose proof Hwf as [Hne [Hnd Hlast]].
   pose proof (nondec_sorted d Hnd) as Hs.
@@ -506,69 +505,63 @@ Proof.
   pose proof (Hm (nthN d c + 1) r ltac:(lia)). lia.
 Qed.
 
-(* the hypothesis f 1 = 1 of the task is not needed: leading zeros (sources with f 1 > 1) are fine *)
+(* the hypothesis f 1 = 1 of the task is not needed: leading zeros (sources with f 1 > 1) are fine.
+   Since the repair of Curve::number_arrivals at exact multiples of the last entry, vectors that end in a plateau
+   are covered, too (former hypothesis ~ plateau_end d) *)
 Lemma exact_dmin_exact_on_prefix_gen : forall f d, (forall a b, a <= b -> f a <= f b) -> f 0 = 0 ->
   (forall x, 0 < x -> 1 <= f x) ->
-  wf_dmin d -> ~ plateau_end d -> exact_dmin_of f d ->
+  wf_dmin d -> exact_dmin_of f d ->
   forall delta, delta <= lastN d -> curve_na d delta = f delta.
 Proof.
-  intros f d Hm H0 Hpos Hwf Hnp Hex delta Hd. pose proof Hwf as [Hne [Hnd Hlast]].
+  intros f d Hm H0 Hpos Hwf Hex delta Hd. pose proof Hwf as [Hne [Hnd Hlast]].
   destruct (N.eq_dec delta 0) as [->|Hd0]; [rewrite H0; apply curve_na_0|].
-  destruct (N.eq_dec delta (lastN d)) as [->|HdL].
-  - rewrite curve_na_eq by lia. rewrite N.div_same, N.mod_same by lia. rewrite curve_tail_0.
-    pose proof (exact_last_ub f d Hwf Hex) as Hub.
-    enough (lenN d <= f (lastN d)) by lia.
-    assert (Hl : (1 <= length d)%nat) by (destruct d; [congruence | cbn [length]; lia]).
-    destruct (Nat.eq_dec (length d) 1) as [E|NE].
-    + unfold lenN. rewrite E. apply (Hpos (lastN d)). exact Hlast.
-    + pose proof (Hnd (length d - 2)%nat ltac:(lia)) as Hle.
-      replace (S (length d - 2)) with (length d - 1)%nat in Hle by lia.
-      assert (Hlt : nthN d (length d - 2) < nthN d (length d - 1)).
-      { destruct (N.eq_dec (nthN d (length d - 2)) (nthN d (length d - 1))) as [E|E]; [|lia].
-        exfalso. apply Hnp. split; [lia | exact E]. }
-      destruct (Hex (length d - 2)%nat ltac:(lia)) as [He _]. rewrite <- last_nth in Hlt.
-      pose proof (Hm (nthN d (length d - 2) + 1) (lastN d) ltac:(lia)). unfold lenN. lia.
-  - assert (Hlt : delta < lastN d) by lia. assert (Hpos' : 0 < delta) by lia.
-    rewrite curve_na_small by lia.
-    pose proof (exact_tail_ub f d delta Hm Hwf Hex Hpos' Hd (or_introl Hlt)).
-    pose proof (exact_tail_lb f d delta Hm Hpos Hwf Hex Hpos' Hlt). lia.
+  assert (Hpos' : 0 < delta) by lia.
+  rewrite curve_na_le_last by lia.
+  pose proof (exact_tail_ub f d delta Hm Hwf Hex Hpos' Hd).
+  pose proof (exact_tail_lb f d delta Hm Hpos Hwf Hex Hpos' Hd). lia.
 Qed.
 
 Theorem exact_dmin_exact_on_prefix : forall f d, (forall a b, a <= b -> f a <= f b) -> f 0 = 0 ->
   (forall x, 0 < x -> 1 <= f x) -> f 1 = 1 ->
-  wf_dmin d -> ~ plateau_end d -> exact_dmin_of f d ->
+  wf_dmin d -> exact_dmin_of f d ->
   forall delta, delta <= lastN d -> curve_na d delta = f delta.
 Proof. intros f d Hm H0 Hpos _. apply exact_dmin_exact_on_prefix_gen; assumption. Qed.
 Print Assumptions exact_dmin_exact_on_prefix.
 
-(* strictly below the last entry the plateau quirk does not matter *)
+(* strictly below the last entry (kept: before the repair this was all that held for plateau-ended vectors) *)
 Theorem exact_dmin_exact_below_last : forall f d, (forall a b, a <= b -> f a <= f b) -> f 0 = 0 ->
   (forall x, 0 < x -> 1 <= f x) ->
   wf_dmin d -> exact_dmin_of f d ->
   forall delta, delta < lastN d -> curve_na d delta = f delta.
 Proof.
-  intros f d Hm H0 Hpos Hwf Hex delta Hd.
-  destruct (N.eq_dec delta 0) as [->|Hd0]; [rewrite H0; apply curve_na_0|].
-  assert (Hpos' : 0 < delta) by lia. assert (Hle : delta <= lastN d) by lia.
-  rewrite curve_na_small by lia.
-  pose proof (exact_tail_ub f d delta Hm Hwf Hex Hpos' Hle (or_introl Hd)).
-  pose proof (exact_tail_lb f d delta Hm Hpos Hwf Hex Hpos' Hd). lia.
+  intros f d Hm H0 Hpos Hwf Hex delta Hd. apply exact_dmin_exact_on_prefix_gen; try assumption. lia.
 Qed.
 Print Assumptions exact_dmin_exact_below_last.
 
-(* the quirk: a plateau-ended exact vector over-counts at delta = lastN d *)
-Theorem exact_plateau_refuted : exists ab d, wf_ab ab /\ wf_dmin d /\ plateau_end d /\
-  exact_dmin_of (na ab) d /\ curve_na d (lastN d) <> na ab (lastN d).
+(* regression (former finding C12-plateau-at-last): the old witness, a plateau-ended exact vector, now agrees with
+   its source at delta = lastN d as well *)
+Theorem exact_plateau_repaired :
+  let ab := SumAB [Periodic 3; Sporadic 4 2] in let d := [0; 2; 3; 6; 6] in
+  wf_ab ab /\ wf_dmin d /\ plateau_end d /\ exact_dmin_of (na ab) d /\
+  curve_na d (lastN d) = na ab (lastN d) /\ forall delta, delta <= lastN d -> curve_na d delta = na ab delta.
 Proof.
-  exists (SumAB [Periodic 3; Sporadic 4 2]), [0; 2; 3; 6; 6].
-  split; [cbn; lia|]. split; [|split; [|split]].
-  - split; [discriminate|]. split; [|vm_compute; reflexivity].
-    intros [|[|[|[|i]]]] Hi; cbn [length] in Hi; try lia; vm_compute; discriminate.
+  cbv zeta.
+  assert (Hwa : wf_ab (SumAB [Periodic 3; Sporadic 4 2])) by (cbn; lia).
+  assert (Hwf : wf_dmin [0; 2; 3; 6; 6]).
+  { split; [discriminate|]. split; [|vm_compute; reflexivity].
+    intros [|[|[|[|i]]]] Hi; cbn [length] in Hi; try lia; vm_compute; discriminate. }
+  assert (Hex : exact_dmin_of (na (SumAB [Periodic 3; Sporadic 4 2])) [0; 2; 3; 6; 6]).
+  { intros [|[|[|[|[|i]]]]] Hi; cbn [length] in Hi; try lia; vm_compute; split; (discriminate || reflexivity). }
+  split; [exact Hwa|]. split; [exact Hwf|]. split; [|split; [exact Hex|split]].
   - split; [cbn [length]; lia | reflexivity].
-  - intros [|[|[|[|[|i]]]]] Hi; cbn [length] in Hi; try lia; vm_compute; split; (discriminate || reflexivity).
-  - vm_compute. discriminate.
+  - vm_compute. reflexivity.
+  - apply exact_dmin_exact_on_prefix_gen; try assumption.
+    + intros a b Hab. apply na_mono; assumption.
+    + apply na_zero; exact Hwa.
+    + intros x Hx. pose proof (na_mono _ Hwa 1 x ltac:(lia)) as H1.
+      assert (E : na (SumAB [Periodic 3; Sporadic 4 2]) 1 = 2) by (vm_compute; reflexivity). lia.
 Qed.
-Print Assumptions exact_plateau_refuted.
+Print Assumptions exact_plateau_repaired.
 
 (* ---------- the conversions built on the delta-min iterator ---------- *)
 (* the repaired take_while: the flag "a non-zero distance has been seen" after a list of kept elements *)
@@ -843,6 +836,40 @@ Proof.
 Qed.
 Print Assumptions curve_from_ab_exact_below_last.
 
+(* up to AND INCLUDING the largest recorded distance (no side condition on plateaus any more); for delta = 0 no
+   usable result is needed *)
+Corollary curve_from_ab_until_exact_upto_last : forall ab hz, wf_ab ab -> steps_exact_class ab ->
+  (forall x, 0 < x -> 1 <= na ab x) ->
+  forall delta, delta <= lastN (curve_from_ab_until ab hz) ->
+  curve_na (curve_from_ab_until ab hz) delta = na ab delta.
+Proof.
+  intros ab hz Hwf Hc Hpos delta Hd.
+  destruct (N.eq_dec delta 0) as [->|Hd0]; [rewrite na_zero by exact Hwf; apply curve_na_0|].
+  apply exact_dmin_exact_on_prefix_gen; try assumption.
+  - intros a b Hab. apply na_mono; assumption.
+  - apply na_zero; exact Hwf.
+  - split; [intros E; rewrite E in Hd; unfold lastN in Hd; cbn [last] in Hd; lia|].
+    split; [apply curve_from_ab_until_nondecreasing; assumption | lia].
+  - apply curve_from_ab_until_exact_gen; assumption.
+Qed.
+Print Assumptions curve_from_ab_until_exact_upto_last.
+
+Corollary curve_from_ab_exact_upto_last : forall ab n, wf_ab ab -> steps_exact_class ab ->
+  (forall x, 0 < x -> 1 <= na ab x) ->
+  forall delta, delta <= lastN (curve_from_ab ab n) ->
+  curve_na (curve_from_ab ab n) delta = na ab delta.
+Proof.
+  intros ab n Hwf Hc Hpos delta Hd.
+  destruct (N.eq_dec delta 0) as [->|Hd0]; [rewrite na_zero by exact Hwf; apply curve_na_0|].
+  apply exact_dmin_exact_on_prefix_gen; try assumption.
+  - intros a b Hab. apply na_mono; assumption.
+  - apply na_zero; exact Hwf.
+  - split; [intros E; rewrite E in Hd; unfold lastN in Hd; cbn [last] in Hd; lia|].
+    split; [apply curve_from_ab_nondecreasing; assumption | lia].
+  - apply curve_from_ab_exact_gen; assumption.
+Qed.
+Print Assumptions curve_from_ab_exact_upto_last.
+
 (* ---------- the link to the doubling loop, with the explicit hypothesis that it found a horizon ---------- *)
 Lemma dmins_snd_mono : forall ab h i j, wf_ab ab -> steps_exact_class ab -> (i <= j)%nat ->
   (j < length (dmins_upto ab h))%nat ->
@@ -1077,12 +1104,7 @@ Theorem curve_of_periodic_exact : forall T, 1 <= T -> forall delta,
 Proof.
   intros T HT delta.
   assert (E : curve_na (curve_of_periodic T) delta = na (Periodic T) delta).
-  { cbn [na]. unfold curve_of_periodic, curve_na, div_ceil, lastN, lenN, hdN. cbn [last length hd lookup_arrivals].
-    destruct (N.eqb_spec delta 0) as [->|Hd].
-    - rewrite N.div_0_l, N.mod_0_l by lia. reflexivity.
-    - cbv zeta. pose proof (N.mod_lt delta T ltac:(lia)).
-      destruct (N.ltb_spec T (delta mod T)); [lia|]. unfold b2n.
-      destruct (N.ltb_spec 0 (delta mod T)); lia. }
+  { cbn [na]. unfold curve_of_periodic. apply curve_na_singleton. lia. }
   rewrite E. split; [lia | reflexivity].
 Qed.
 Print Assumptions curve_of_periodic_exact.
